@@ -1,6 +1,8 @@
 """C18 -- Core value objects survive every serialisation unchanged; every reported Config key retrieves its value.
 
 Obligations: coq/Props/C18.v (Serial.v codec model, ConfigKey.v key model).
+Tie T: Gen/SerialReduceGen.v -- the __reduce__ bodies of the three DataCoordinate classes regenerated from the source
+       (harness/translators/c18_reduce.py, fail-closed; the other pickle hooks are compared as ASTs).
 Tie K: generated instances over many dimension groups of the real universe / nested Config trees with awkward
        keys run through the real classes (harness/impl/c18_impl.py, worker subprocesses); the wire JSON of
        to_json(), the state of the object from_json gives back, Config.names()/[]/in/nameTuples results are
@@ -15,6 +17,7 @@ import json
 from pathlib import Path
 
 from harness.common import VERIF, Ctx, cbool, clist, copt, cstr, cz, parallel_workers, run_worker
+from harness.translators import c18_reduce
 
 HDR_S = ("From Coq Require Import ZArith NArith List Bool String.\nFrom V Require Import Model.Serial Model.SerialX Model.ConfigKey Model.SerialCheck.\n"
          "Import ListNotations.\nOpen Scope string_scope.\n")
@@ -412,6 +415,8 @@ def run(ctx: Ctx):
         "timespans and dataset types always; a Config case is non-trivial when names() reports at least 2 keys with "
         "nesting depth >= 2; distinctness by hash of the abstracted instance / tree"
     )
+    # tie T: the __reduce__ bodies of the data ID classes, regenerated; the other pickle hooks shape-checked (fail-closed)
+    ctx.regen("c18_reduce", c18_reduce.translate)
     ok = ctx.build_props(extra_targets=["Model/SerialCheck.vo"])
     if not ok:
         from harness.common import coq_make
